@@ -11,6 +11,7 @@ class C17(vlib.Spec):
                 "C17_uf_find_correct", "C17_uf_union_keeps_first_root",
                 "C17_sm_new_inv", "C17_sm_new_cycle", "C17_sm_new_total",
                 "C17_sm_group_order", "C17_sm_try_merge_exact", "C17_sm_try_merge_cycle_refused",
+                "C17_sm_try_merge_true_safe", "C17_sm_try_merge_preserves_modulo_partial",
                 "C17_sm_try_merge_false_sound_partial", "C17_sm_try_merge_enemy_refused_partial",
                 "C17_sm_try_merge_same_group_partial",
                 "C17_is_cycle_b_spec", "C17_topo_order_b_sound", "C17_uf_model_satisfies_property"]
@@ -57,38 +58,36 @@ class C17(vlib.Spec):
 
 EXPLANATION = (
     "Coq 8.16.1 proofs about a branch-by-branch Gallina model + per-run correspondence with dfir_lang. "
-    "PROVED IN FULL (all graphs / all parent maps / all histories, axiom-free): topo_sort Ok => duplicate-free order "
-    "containing every node with every predecessor strictly earlier (Permutation of the nodes on closed graphs); Err => "
-    "non-empty duplicate-free genuine cycle reachable from the nodes; Ok <=> no reachable cycle; fuel bounds (never "
-    "out of fuel). Union-find: find terminates on every parent map; on every history same_set = equivalence closure of "
-    "the unions; find returns the representative and compression is invisible; the first argument's root survives union. "
-    "SubgraphMerge: SMInv (order is a topological permutation of the keys, groups contiguous with representative first, "
-    "subgraph_preds = quotient predecessors, quotient acyclic, enemies symmetric over representatives, no enemy pair "
-    "inside a group) holds after new; new's Err is a genuine cycle; new never panics on closed inputs. "
-    "PARTIAL (names end in _partial): try_merge = false => distinct groups and (enemy conflict or a cycle through the "
-    "merged group) and SMInv is preserved; an enemy conflict is always refused; same-group merges are no-ops answering "
-    "true. MISSING as theorems: completeness of the window-pruned DFS (would-create-cycle => false) and preservation of "
-    "SMInv by a successful merge (window re-sort and idx/len/preds/enemies bookkeeping, absence of panics). These are "
-    "covered only by the correspondence check: on every generated case the real SubgraphMerge is run and SMInv_b, the "
-    "partition bookkeeping and an independent refusal oracle (enemy pair across the groups, or quotient graph with the "
-    "two groups merged is cyclic by source-stripping) are evaluated on its outputs, and outputs are compared with the model.")
+    "PROVED IN FULL (all graphs / all parent maps / all histories / all SMInv states, axiom-free): topo_sort Ok => "
+    "duplicate-free order containing every node with every predecessor strictly earlier (Permutation of the nodes on "
+    "closed graphs); Err => non-empty duplicate-free genuine cycle reachable from the nodes; Ok <=> no reachable cycle; "
+    "fuel bounds. Union-find: find terminates on every parent map; on every history same_set = equivalence closure of the "
+    "unions; compression is invisible; the first argument's root survives union. SubgraphMerge: SMInv holds after new; "
+    "new's Err is a genuine cycle; new never panics on closed inputs; group-order lemma (quotient edges go forward in "
+    "the group index ranges); the window-pruned DFS is totally correct (terminates within its fuel, never panics, "
+    "finds a cycle through the merged group iff one exists); try_merge = false <=> distinct groups and (enemy conflict "
+    "or cycle through the merged group) [C17_sm_try_merge_exact, both directions]; refusals and same-group merges "
+    "preserve SMInv; a true answer is safe: no enemy conflict, no cycle, and the merged partition keeps an acyclic "
+    "quotient and no enemy pair inside a group. "
+    "PARTIAL: SMInv preservation / absence of panics for ALL merge attempts is proved modulo one explicitly stated "
+    "obligation, merge_phase_refines (the representation refinement of a successful merge: window re-sort, rebuild, "
+    "reindex, predecessor/length/enemy map bookkeeping) [C17_sm_try_merge_preserves_modulo_partial]. That obligation "
+    "is NOT proved; it is covered only by the correspondence check: on every generated case the real SubgraphMerge is "
+    "run, its subgraphs()/find() are compared with the model's, and SMInv_b, the partition bookkeeping and an "
+    "independent refusal oracle are evaluated on its outputs (exhaustive on <=4-node digraphs in the thorough tier). "
+    "Hence level other, not proof.")
 
 
 def main(ctx):
     spec = C17()
     spec.ctx = ctx
-    orig = vlib.finish
-
-    def finish(ctx_, level, coverage, assumptions, extra=None):
-        coverage["explanation"] = EXPLANATION
-        coverage["partial_theorems"] = [t for t in spec.theorems if t.endswith("_partial")]
-        coverage["exhaustive_scopes"] = ("topo_sort: all digraphs on <=3 nodes (quick) / <=4 nodes incl. self loops "
-                                         "(thorough); SubgraphMerge: every DAG in those scopes with random enemies/merges, "
-                                         "thorough: all 2-step merge sequences x <=1 enemy pair on all 3-node DAGs")
-        return orig(ctx_, level, coverage, assumptions, extra)
-
-    vlib.finish = finish
-    try:
-        vlib.standard_check(ctx, spec)
-    finally:
-        vlib.finish = orig
+    spec.explanation = EXPLANATION
+    spec.coverage_extra = {
+        "partial_theorems": [t for t in spec.theorems if t.endswith("_partial")],
+        "unproved_obligation": "GraphAlg/PSmMerge.v: merge_phase_refines",
+        "exhaustive_scopes": ("topo_sort: all digraphs on <=3 nodes (quick) / <=4 nodes incl. self loops (thorough); "
+                              "SubgraphMerge: every DAG in those scopes with random enemies/merges, thorough: all 2-step "
+                              "merge sequences x <=1 enemy pair on all 3-node DAGs; keys are never created in "
+                              "topological order on purpose (random key permutation)"),
+    }
+    vlib.standard_check(ctx, spec)
